@@ -692,11 +692,19 @@ class DAGRunConcurrentManager(DAGRunManagerLike):
                 # will be executed again and the function will unlock the descendants in the other branch.
                 to_unlock_descendants = False
 
+            # A concurrent request for a node that has already been executed returns the stored result,
+            # which must not be saved as an artifact for the second time
+            is_stored = (
+                self._node_storage.exists_node_result(node_id)
+                and self._node_storage.get_node_result(node_id) is result
+            )
+
             logger.debug('Save the result "%s" for the node %s', result, node_id)
             self._node_storage.set_node_result(node_id, result)
 
             # TODO: Needs to reorganize saving policy for artifact storage
-            await self.ctx.save_node_result(node_id, result)
+            if not is_stored:
+                await self.ctx.save_node_result(node_id, result)
 
         finally:
             if not to_unlock_descendants:
